@@ -421,6 +421,8 @@ class Circuit:
     def finalize(self) -> None:
         """A wrapper for _finalize()."""
         if not self._finalized:
+            # references by name may create blocks ('_not_NAME', '_ctrl'), resolve them first
+            self._resolver.resolve()
             self._finalize()
             self._finalized = True
 
